@@ -61,8 +61,13 @@ CONSTANTS
     BgSeq,        \* sequence of <<op, target, rounds>>: background goroutines (stats writer, announcer, ...)
     Fixed,        \* set of names (subset of FixNames) whose REPAIRED transcription is in force
     Budget,       \* number of spontaneous loop atoms per torrent
+    Unbuffered,   \* subset of ReplyCmds: the query commands whose Response channel the SOURCES create WITHOUT buffer
+                  \* (read by the extractor from `Response: make(chan T[, n])`; the design has none: {})
+    SrcOver,      \* function op -> flat step sequence AS EXTRACTED FROM THE SOURCES, for the operations whose sources equal
+                  \* no transcription of ProgV (the tree as it is, whatever it is; NoOver in the design configs)
     Allowed(_)    \* filter on the clients' picks (a function 1..NClients -> index in Choices)
 
+NoOver == <<>>
 Torrents == {TorrentSeq[i] : i \in 1 .. Len(TorrentSeq)}
 \* repairs known to this specification (fixes/*.diff); which of them are in force is read from the SOURCES by the extractor
 FixNames == {"StartAll", "StopAll",      \* C20-startall-stopall-lock-order: registry snapshot BEFORE the write transaction
@@ -198,7 +203,10 @@ Relevant(op) ==
       [] op \in {"torrent.stop", "torrent.close"} -> {"dhtDropOnStop"}
       [] OTHER -> {}
 
-\* commands answered inside the rendezvous (the handler only posts a reply into a buffered / awaited channel)
+\* commands answered by the loop on the Response channel of the request. With a buffer of one element (the design) the
+\* handler posts the answer and is back in its select whatever the caller does. WITHOUT buffer (m \in Unbuffered) the answer
+\* is a step of the loop of its own (REPLY) that needs the caller to be waiting in recvResponse -- and the caller leaves
+\* recvResponse through closeC when the torrent is closed (remove / move / Session.Close) while the query is being served.
 ReplyCmds == {"statsCommandC", "peersCommandC", "trackersCommandC", "webseedsCommandC", "notifyErrorCommandC", "notifyListenCommandC"}
 \* commands whose handler may run stop()
 StopCmds  == {"stopCommandC", "verifyCommandC"}
@@ -255,7 +263,8 @@ Compile(flat, i, t) ==
     ELSE IF flat[i].each THEN Unroll(flat, i, RunEnd(flat, i), 1) \o Compile(flat, RunEnd(flat, i), t)
     ELSE (IF flat[i].alt THEN <<>> ELSE C1(flat[i], t)) \o Compile(flat, i + 1, t)
 
-Code(op, t) == Compile(ProgV(op, Fixed), 1, t)
+ProgOf(op) == IF op \in DOMAIN SrcOver THEN SrcOver[op] ELSE ProgV(op, Fixed)
+Code(op, t) == Compile(ProgOf(op), 1, t)
 
 (***************************************************************************)
 (* Processes                                                               *)
@@ -276,12 +285,13 @@ Workers == Clients \cup Bgs \cup Children
 Procs == Workers \cup Loops
 
 \* what a loop is doing: back in its select ("idle"), stop() after a stop/verify command, close(), or one atom
-LoopModes == {"idle", "stop", "close", "aRES", "aRL", "aWL", "aPR"}
+LoopModes == {"idle", "stop", "close", "reply", "aRES", "aRL", "aWL", "aPR"}
 DoneStep(t) == <<[k |-> "DONE", m |-> "doneC", t |-> t]>>
 LoopCode(md, t) ==
     CASE md = "idle"  -> <<>>
       [] md = "stop"  -> Code("torrent.stop", t)
       [] md = "close" -> Code("torrent.close", t) \o DoneStep(t)
+      [] md = "reply" -> <<[k |-> "REPLY", m |-> "Response", t |-> t]>>      \* req.Response <- answer, unbuffered
       [] md = "aRES"  -> Compile(<<S("RES", "*")>>, 1, t)
       [] md = "aRL"   -> Compile(RLRU("mBitfield"), 1, t)
       [] md = "aWL"   -> Compile(WLWU("mBitfield"), 1, t)
@@ -301,7 +311,8 @@ VARIABLES
     lk,       \* lock state: rdr[m] readers, wr[m] writer holding or PENDING, wh[m] writer holds, db holder
     closed,   \* closed[t]: closeC of the torrent is closed
     done,     \* done[t]: doneC is closed (the loop has ended)
-    reply,    \* reply[p]: the loop has posted the answer p waits for
+    reply,    \* reply[p]: "no" | "yes" the loop has posted the answer p waits for | "owed" the loop is about to send it on an
+              \*           unbuffered channel | "lost" p has left recvResponse through closeC while the answer was owed
     budget,   \* budget[t]: spontaneous loop atoms left
     rounds    \* rounds[p]: rounds a background goroutine still has to run after the current one
 
@@ -338,6 +349,9 @@ Adv(p, L) ==
 (***************************************************************************)
 (* Guards (also used to recognise a lock-up) and steps                     *)
 (***************************************************************************)
+\* c sits in recvResponse of a query the loop of t has taken and not answered yet
+Awaits(c, t) == reply[c] = "owed" /\ Active(c) /\ Cur(c).k = "RECV" /\ Cur(c).t = t
+
 Can(p) ==
     /\ Active(p)
     /\ LET s == Cur(p) IN
@@ -346,7 +360,8 @@ Can(p) ==
                           \/ lk.wr[s.m] = p /\ ~lk.wh[s.m] /\ lk.rdr[s.m] = {}   \* (a holder that locks again waits for itself)
          [] s.k \in {"DBB", "DBX"} -> lk.db = "none"
          [] s.k = "SEND" -> Idle(s.t) \/ closed[s.t]
-         [] s.k = "RECV" -> reply[p] \/ closed[s.t]
+         [] s.k = "RECV" -> reply[p] = "yes" \/ closed[s.t]
+         [] s.k = "REPLY" -> \E c \in Workers : Awaits(c, s.t)             \* unbuffered send: the receiver must be there
          [] s.k = "WAITDONE" -> done[s.t]
          [] s.k = "WAITALL" -> \A t \in Torrents : done[t]
          [] OTHER -> TRUE
@@ -373,16 +388,27 @@ Step(p) ==
                           /\ pc' = [pc EXCEPT ![p] = r[1], ![q] = 1]
                           /\ lk' = r[2]
                           /\ UNCHANGED <<reply, rounds>>
+                     ELSE IF s.m \in ReplyCmds /\ s.m \in Unbuffered
+                     THEN LET q == LoopOf(s.t)                   \* the handler runs, its answer needs the receiver
+                              r == RelRun(CodeOf(p), pc[p] + 1, lk, p) IN
+                          /\ lmode' = [lmode EXCEPT ![s.t] = "reply"]
+                          /\ pc' = [pc EXCEPT ![p] = r[1], ![q] = 1]
+                          /\ lk' = r[2]
+                          /\ reply' = [reply EXCEPT ![p] = "owed"]
+                          /\ UNCHANGED rounds
                      ELSE /\ Adv(p, lk)
-                          /\ reply' = IF s.m \in ReplyCmds THEN [reply EXCEPT ![p] = TRUE] ELSE reply
+                          /\ reply' = IF s.m \in ReplyCmds THEN [reply EXCEPT ![p] = "yes"] ELSE reply
                           /\ UNCHANGED lmode
                   /\ UNCHANGED <<who, closed, done, budget>>
                \/ /\ closed[s.t]                                 \* sendCommand gives up
                   /\ Adv(p, lk)
                   /\ UNCHANGED <<who, lmode, closed, done, reply, budget>>
-         [] s.k = "RECV" -> /\ Adv(p, lk)
-                            /\ reply' = [reply EXCEPT ![p] = FALSE]
+         [] s.k = "RECV" -> /\ Adv(p, lk)                \* (with "owed": through closeC, nobody will receive the answer)
+                            /\ reply' = [reply EXCEPT ![p] = IF @ = "owed" THEN "lost" ELSE "no"]
                             /\ UNCHANGED <<who, lmode, closed, done, budget>>
+         [] s.k = "REPLY" -> /\ Adv(p, lk)
+                             /\ reply' = [c \in Workers |-> IF Awaits(c, s.t) THEN "yes" ELSE reply[c]]
+                             /\ UNCHANGED <<who, lmode, closed, done, budget>>
          [] s.k = "CLOSET" -> /\ Adv(p, lk)
                               /\ closed' = [closed EXCEPT ![s.t] = TRUE]
                               /\ UNCHANGED <<who, lmode, done, reply, budget>>
@@ -433,7 +459,7 @@ Init ==
         /\ lk = NoLock
         /\ closed = [t \in Torrents |-> FALSE]
         /\ done = [t \in Torrents |-> FALSE]
-        /\ reply = [p \in Workers |-> FALSE]
+        /\ reply = [p \in Workers |-> "no"]
         /\ budget = [t \in Torrents |-> Budget]
 
 Next ==
@@ -474,6 +500,8 @@ WaitsFor(p) ==
          [] s.k \in {"DBB", "DBX"} -> {lk.db} \ {"none"}
          [] s.k \in {"SEND", "RECV", "WAITDONE"} -> {LoopOf(s.t)}
          [] s.k = "WAITALL" -> {LoopOf(t) : t \in {x \in Torrents : ~done[x]}}
+         [] s.k = "REPLY" -> IF \E c \in Workers : reply[c] = "owed" /\ Active(c) THEN {c \in Workers : reply[c] = "owed"}
+                             ELSE {p}                            \* the receiver has gone: nobody can release the loop
          [] OTHER -> {}
 
 RECURSIVE Reach(_, _)
